@@ -257,11 +257,29 @@ def end_to_end(ctx):
                 w["layers"][non_unit[0]]["tearDownFaults"] = [[999999, 2]]
         cases.append(cw.Case(w, o, "children"))
 
+    # a relative --xml directory names a place at the start of the run, wherever tests leave the process
+    for i in range(3 if ctx.quick() else 40):
+        w = worlds.gen_world(rng, n_layers=2, tests_per_layer=(1, 3), kinds=["pass", "fail"], p_fault=0.0, p_write=0.0)
+        for t in w["tests"]:
+            if rng.random() < 0.6:
+                rng.choice([t["setUp"], t["body"], t["tearDown"]])["chdir"] = True
+        cases.append(cw.Case(w, {"verbose": 1}, "relative-xml"))
+    # modules that cannot be imported are reported too - also when no test runs at all
+    for i in range(4 if ctx.quick() else 40):
+        w = worlds.gen_world(rng, n_layers=2, tests_per_layer=(0, 2), kinds=["pass"], p_fault=0.0, p_write=0.0,
+                             import_errors=True)
+        if not any(m.get("importError") for m in w["modules"].values()):
+            w["modules"][sorted(w["modules"])[0]]["importError"] = True
+        o = {"verbose": 1}
+        if i % 2 == 0:
+            o["test"] = ["no test has this name"]
+        cases.append(cw.Case(w, o, "import-errors"))
+
     def one(i_c):
         i, c = i_c
         d = os.path.join(ctx.tmp, "xw%04d" % i)
         worlds.materialize(c.world, d)
-        c.opts["xml"] = os.path.join(d, "xmlout")
+        c.opts["xml"] = "xmlout" if c.label == "relative-xml" else os.path.join(d, "xmlout")
         c.obs = worlds.run_real(c.world, c.opts, d)
         c.files = {}
         rd = os.path.join(d, "xmlout", "testreports")
@@ -284,6 +302,19 @@ def end_to_end(ctx):
                     "addExpectedFailure", "addUnexpectedSuccess")
         ran = sorted({e["t"] for e in c.obs.events if e.get("ev") == "tstart"
                       and any(op in recorded for op in ops[e["t"]] if isinstance(op, str))})
+        nimp = sum(1 for m in c.world["modules"].values() if m.get("importError"))
+        if nimp and not c.obs.timeout:
+            nerr = 0
+            for text in c.files.values():
+                try:
+                    nerr += len(ElementTree.fromstring(text).findall("testcase/error"))
+                except Exception:  # noqa: BLE001
+                    pass
+            if nerr < nimp:
+                ctx.violation("end-to-end: %d module(s) could not be imported (the run reports them) but the XML reports "
+                              "hold %d error element(s) in %r" % (nimp, nerr, sorted(c.files)), case,
+                              signature="C17:import-error-not-filed")
+                continue
         missing = [t for t in ran if not any(f.endswith(".T%d.xml" % t) for f in c.files)]
         if missing and not c.obs.timeout:
             ctx.violation("end-to-end: tests %r ran (%d processes) but have no report among %r" % (
